@@ -10,7 +10,7 @@ PROOF_FILES = [f for f in ['proofs/C04Proofs.v'] if os.path.exists(os.path.join(
 
 
 def main(tier, seed):
-    return icheck.run(PROP, tier, seed, genchart.Profile(p_orth=0.45, same_source_boost=0.5, p_guard=0.3, p_contract=0.05, n_trans=(6, 16), p_eventless=0.1, alt=[(0.3, genchart.parallel_profile(p_sibling_target=0.6)), (0.25, genchart.nested_parallel_chart)]), ifam.ScenarioSpec(p_queue=0.45, p_bits=0.15, guard_init='all'), icheck.interest_c04, PROOF_FILES, assumptions=['which error wins when both kinds of offending pairs exist is not fixed by the property'])
+    return icheck.run(PROP, tier, seed, genchart.Profile(p_orth=0.45, same_source_boost=0.5, p_guard=0.3, p_contract=0.05, n_trans=(6, 16), p_eventless=0.1, alt=[(0.3, genchart.parallel_profile(p_sibling_target=0.6)), (0.4, genchart.nested_parallel_chart)]), ifam.ScenarioSpec(p_queue=0.45, p_bits=0.15, guard_init='all'), icheck.interest_c04, PROOF_FILES, assumptions=['which error wins when both kinds of offending pairs exist is not fixed by the property'])
 
 
 replay = icheck.replay
